@@ -931,6 +931,18 @@ func (r *Run) checkConnectSensors(sums *Summaries) {
 	}
 	r.Check(okChain, "connect.provenance", p.Pos(fn.Pos()), "sensor list and target list partition the genome's nodes by IsSensor; the source is drawn from the sensors that were found unconnected",
 		fmt.Sprintf("cannot establish: sensors = nodes with IsSensor, targets = nodes without, source drawn from the unconnected sensors (source %s, target %s, lists found: unconnected=%v sensors=%v targets=%v)", st, dt, dList != nil, sList != nil, oList != nil))
+	// every node is classified and every target is visited: the loop that fills the target list walks all of the
+	// genome's nodes, the loop that holds the insertion walks all of the target list (a loop that starts at 1 or
+	// stops one short leaves a non-sensor node without its gene). Not asked under C01: a genome with fewer new
+	// genes is as well-formed as one with all of them.
+	if r.Mode != "well-formed" && okChain {
+		why := c05WholeWalk(tm, InnermostLoop(loops, oList.call.Block()), oList.elem, "recv.Nodes")
+		r.Check(why == "", "connect.all-nodes", p.Pos(oList.call.Pos()), "the target list is filled by a walk over all the genome's nodes",
+			"the loop that fills the target list does not look at every node of the genome: "+why)
+		why = c05WholeWalk(tm, InnermostLoop(loops, gi[0].Block()), dst, "")
+		r.Check(why == "", "connect.all-targets", p.Pos(gi[0].Pos()), "the loop that creates the genes walks the whole target list",
+			"the loop that creates the genes does not visit every element of the target list: "+why)
+	}
 	// `connected` is set only under (gene.InNode == sensor) and the unconnected list is appended only when it is false after a full scan
 	if dList != nil && (dList.underNotFlag != nil || dList.scan != nil) {
 		var sites []flagEdge
@@ -953,6 +965,12 @@ func (r *Run) checkConnectSensors(sums *Summaries) {
 			if dList.underNotFlag == nil {
 				scan = dList.scan.L
 			}
+			// `no gene leaves the sensor` is what the exhausted scan says only if it looked at every gene
+			scanWhy := "it is not decided inside a scan of the genome's genes"
+			if scan != nil {
+				scanWhy = c05WholeWalk(tm, scan, nil, "recv.Genes")
+			}
+			scanIdx := c05ScanIndex(scan)
 			for _, g := range conds {
 				if scan != nil && (!scan.Blocks[g.At] || g.At == scan.Header) {
 					continue
@@ -961,7 +979,7 @@ func (r *Run) checkConnectSensors(sums *Summaries) {
 				if a, b, ok := eqCond(tm, g); ok {
 					for _, pr := range [][2]*Term{{a, b}, {b, a}} {
 						base, path := pr[0].FieldPath()
-						if base == nil || !isElemOfRecvField(base, "Genes") {
+						if base == nil || !isElemOfRecvField(base, "Genes") || !c05AtIndex(base, scanIdx) {
 							continue
 						}
 						switch strings.Join(path, ".") {
@@ -981,6 +999,10 @@ func (r *Run) checkConnectSensors(sums *Summaries) {
 			bad := "a sensor is marked connected without a gene leaving it"
 			if okc && len(extra) > 0 {
 				bad = "a gene leaving the sensor marks it connected only under a further condition (" + strings.Join(extra, "; ") + "): a sensor that has genes can be taken for an unconnected one and receive additional genes"
+			}
+			if okc && len(extra) == 0 && scanWhy != "" && r.Mode != "well-formed" {
+				okc = false
+				bad = "whether a gene leaves the sensor is not decided by a scan of all the genome's genes (" + scanWhy + "): a sensor that has genes can be taken for an unconnected one"
 			}
 			r.Check(okc && len(extra) == 0, "connect.connected-test", p.Pos(firstBlockPos(s.From)), "a sensor counts as connected exactly when some gene leaves it", bad)
 		}
@@ -1041,6 +1063,13 @@ func (r *Run) checkConnectSensors(sums *Summaries) {
 				extra = append(extra, "the flag is set outside a scan of the genome's genes")
 				continue
 			}
+			// `no gene sensor->target exists` is what the exhausted scan says only if it looked at every gene
+			if why := c05WholeWalk(tm, l, nil, "recv.Genes"); why != "" {
+				okSkip = false
+				extra = append(extra, "the scan for an existing link leaves genes out ("+why+"): a link that exists can be created a second time")
+				continue
+			}
+			scanIdx := c05ScanIndex(l)
 			for _, g := range loopGuardsOnly(condsAt(s.From, s.To), l) {
 				if g.At == l.Header {
 					continue
@@ -1050,7 +1079,7 @@ func (r *Run) checkConnectSensors(sums *Summaries) {
 				if ok {
 					for _, pr := range [][2]*Term{{a, b}, {b, a}} {
 						base, path := pr[0].FieldPath()
-						if base == nil || !isElemOfRecvField(base, "Genes") {
+						if base == nil || !isElemOfRecvField(base, "Genes") || !c05AtIndex(base, scanIdx) {
 							continue
 						}
 						switch strings.Join(path, ".") {
